@@ -351,6 +351,12 @@ pub fn float_ops(op: &str, a: &[&str]) -> Option<String> {
             let pol = a5::coordinate_systems::Polar::new(1.0, Radians::new_unchecked(p_f64(a[0])?));
             format!("ok {}", a5::core::tiling::get_quintant_polar(pol))
         }
+        ("crs_vertex", 3) => {
+            // the library's own snap of a point to its 62-vertex frame (public API)
+            let mut crs = match a5::projections::crs::CRS::new() { Ok(c) => c, Err(_) => return Some("err new".to_string()) };
+            let p = a5::coordinate_systems::Cartesian::new(p_f64(a[0])?, p_f64(a[1])?, p_f64(a[2])?);
+            show(crs.get_vertex(p), |v| format!("{} {} {}", show_f64(v.x()), show_f64(v.y()), show_f64(v.z())))
+        }
         ("consts", 0) => {
             use a5::core::pentagon as pg;
             let pts = [pg::a(), pg::b(), pg::c(), pg::d(), pg::e(), pg::u(), pg::v(), pg::w()];
